@@ -154,6 +154,11 @@ def c02(pid, tier, seed):
         fam("design_multi", W=4, H=14, Multi=True, MaxBars=3, Pre=2, Once=True, D=7 if q else 8, BarOps=("tick", "finish", "drop", "println", "set_message"),
             MpOps=("mp_println", "mp_clear"), MsgShapes=("a", "W1"), TextShapes=("T",), Tpls=("M",), Fins=("AndLeave",), M0="id", Base=0,
             model="MC_Multi", extra=dict(MaxLog=2, TextOnlyNewline=True, ZombieAccounting="repaired")),
+        # ... and with the rate limiter of the target in the model (time steps of 0 and 0.6 s at 2 Hz, bursts that empty the bucket):
+        # refused requests, forced draws and the release of finished bars interleave
+        fam("design_multi_limited", W=4, H=14, Multi=True, MaxBars=3, Pre=2, Once=True, D=7 if q else 9, BarOps=("burst", "tick", "finish", "drop", "println"),
+            MpOps=("mp_println",), TextShapes=("T",), Tpls=("M",), Fins=("AndLeave",), M0="id", Base=0, Hz=2, DTs=(0, 600000),
+            model="MC_Multi", extra=dict(MaxLog=2, TextOnlyNewline=True, ZombieAccounting="repaired")),
         fam("design_multi_relink", W=4, H=14, Multi=True, MaxBars=3, Pre=2, Once=True, D=6 if q else 7, BarOps=("tick", "finish", "drop", "set_target", "readd", "mp_remove"),
             MpOps=("mp_println",), MsgShapes=("a",), TextShapes=("T",), Tpls=("M",), Fins=("AndLeave",), M0="id", Base=0,
             model="MC_Multi", extra=dict(MaxLog=2, TextOnlyNewline=True, ZombieAccounting="repaired")),
